@@ -14,7 +14,8 @@ if [ "$MODE" = prepare ]; then
     if [ -f $W/old/$f ]; then git merge-file $W/var/$f $W/old/$f $W/new/$f >/dev/null 2>&1 || echo "CONFLICT $W/var/$f"; fi
   done
 else
-  (cd $W && diff -ruN new/typhon var/typhon | sed 's#^--- new/#--- a/#; s#^+++ var/#+++ b/#; s#^diff -ruN new/\(.*\) var/.*#diff --git a/\1 b/\1#') > $V/patch.diff || true
+  (cd $W && for f in $(grep '^+++ b/' $V/patch.diff | sed 's#^+++ b/##' | sed 's/\t.*//'); do diff -uN new/$f var/$f; done | sed 's#^--- new/#--- a/#; s#^+++ var/#+++ b/#; s#^diff -uN new/\(.*\) var/.*#diff --git a/\1 b/\1#') > $V/patch.diff.new || true
+  mv $V/patch.diff.new $V/patch.diff
   for f in $(grep '^+++ b/' $V/patch.diff | sed 's#^+++ b/##' | sed 's/\t.*//'); do /venv/bin/python -c "import ast,sys; ast.parse(open('$W/var/$f').read())"; done
   grep -c '^<<<<<<<\|^>>>>>>>' $V/patch.diff || true
   rm -rf $W
